@@ -9,3 +9,5 @@ import (
 func TestMain(m *testing.M) { ev.Main(m) }
 
 func TestCLI(t *testing.T) { cliProp.Test(t) }
+
+func TestCLIRealTime(t *testing.T) { cliRTProp.Test(t) }
